@@ -449,6 +449,51 @@ FILE_KINDS = ('csv', 'tsv', 'json', 'xml', 'parquet', 'feather', 'orc', 'xlsx')
 MEMORY_KINDS = ('frame', 'pydict', 'pyjson', 'pylist')
 
 
+def _db_file(name, tag):
+    return name + ('' if tag is None else '_' + tag) + '.db'
+
+
+def _section_db(case, tm_ids):
+    """the database of a data-source section: that of the first relational source its triples maps read"""
+    srcs = {s['key']: s for s in case['sources']}
+    for t in case['doc']:
+        if t['id'] in tm_ids and srcs[t['src']].get('kind') in ('sqltable', 'sqlquery'):
+            return srcs[t['src']].get('db')
+    return next((s.get('db') for s in case['sources'] if s.get('kind') in ('sqltable', 'sqlquery')), None)
+
+
+def gen_shard_case(rng):
+    """the same mapping applied to same-named tables of two databases (two data-source sections with their own db_url): the two triples
+    maps have the same shape, so their rules fall into the same mapping groups"""
+    import copy
+    cols = ['id', 'name', 'city']
+    def rows(tag):
+        return [[tag + str(i + 1) if rng.random() < 0.5 else str(i + 1), rng.choice(['ann', 'bob', 'cy', 'dee']) + tag.lower(), rng.choice(['x', 'y', None])] for i in range(rng.choice([1, 2, 3, 4]))]
+    kind = rng.choice(['sqltable', 'sqltable', 'sqlquery'])
+    srcs = [{'key': 'S0', 'kind': kind, 'table': 'people', 'db': 'A', 'cols': cols, 'rows': rows('A')},
+            {'key': 'S1', 'kind': kind, 'table': 'people', 'db': 'B', 'cols': cols, 'rows': rows('B')}]
+    def tm(k, v, ck='iri', tt=''):
+        return {'k': k, 'v': v, 'ck': ck, 'tt': tt}
+    t0 = {'id': EX + 'tm/ShardA', 'src': 'S0', 'nonasserted': False, 'subj': tm('templ', EX + 'person/{id}'), 'sjoins': [], 'classes': ([EX + 'class/Person'] if rng.random() < 0.5 else []), 'sgraphs': [],
+          'poms': [{'preds': [tm('const', EX + 'p/name')], 'objs': [{'m': tm('ref', 'name'), 'lang': None, 'dt': None, 'joins': []}], 'graphs': []}]}
+    if rng.random() < 0.5:
+        t0['poms'].append({'preds': [tm('const', EX + 'p/city')], 'objs': [{'m': tm('templ', EX + 'city/{city}'), 'lang': None, 'dt': None, 'joins': []}], 'graphs': []})
+    t1 = copy.deepcopy(t0); t1['id'] = EX + 'tm/ShardB'; t1['src'] = 'S1'
+    if rng.random() < 0.4:
+        # subject templates that the partitioner separates: the two rules share a mapping group only when partitioning is off
+        t0['subj'] = tm('templ', EX + 'a/person/{id}'); t1['subj'] = tm('templ', EX + 'b/person/{id}')
+    doc = [t0, t1]
+    layout = [[[t0['id']]], [[t1['id']]]]
+    if rng.random() < 0.3:
+        # a referencing object map inside each shard (parent data of the same table name)
+        for t, sk in ((t0, 'S0'), (t1, 'S1')):
+            par = {'id': t['id'] + 'Parent', 'src': sk, 'nonasserted': False, 'subj': tm('templ', EX + 'city/{city}'), 'sjoins': [], 'classes': [], 'sgraphs': [], 'poms': []}
+            t['poms'].append({'preds': [tm('const', EX + 'p/livesWith')], 'objs': [{'m': tm('parent', par['id']), 'lang': None, 'dt': None, 'joins': [['city', 'city']]}], 'graphs': []})
+            doc.append(par)
+        layout = [[[t0['id'], t0['id'] + 'Parent']], [[t1['id'], t1['id'] + 'Parent']]]
+    return {'cfg': {'nquads': rng.random() < 0.3, 'mode': rng.choice(['NO', 'PARTIAL-AGGREGATIONS', 'MAXIMAL'])}, 'sources': srcs, 'doc': doc, 'layout': layout}
+
+
 def materialise_files(case, wd, style=None, name='m'):
     """Writes data + mapping files for `case` into directory wd; returns the config text (paths relative to wd)."""
     style = style or Style()
@@ -492,9 +537,10 @@ def materialise_files(case, wd, style=None, name='m'):
             s.setdefault('table', 't%d' % i)
             if kind == 'sqlquery':
                 s.setdefault('query', 'SELECT * FROM "%s"' % s['table'])
-            sqlite_tables[s['table']] = (s['cols'], s['rows'], s.get('types'))
-    if sqlite_tables:
-        write_sqlite(os.path.join(wd, name + '.db'), sqlite_tables)
+            # 'db': the database (file) holding the table -- several sources may be same-named tables of different databases
+            sqlite_tables.setdefault(s.get('db'), {})[s['table']] = (s['cols'], s['rows'], s.get('types'))
+    for tag, tabs in sqlite_tables.items():
+        write_sqlite(os.path.join(wd, _db_file(name, tag)), tabs)
     if case.get('file_path_option'):
         # the file is named by the file_path option of the section instead of the mapping (one file source only)
         key = case['file_path_option']
@@ -513,7 +559,7 @@ def materialise_files(case, wd, style=None, name='m'):
         _sh.copy(os.path.join(os.path.dirname(os.path.abspath(__file__)), case['cfg'].get('udf_source', 'udfs.py')), os.path.join(wd, case['cfg']['udfs']))
     opts = {'mappings': mp}
     if sqlite_tables:
-        opts['db_url'] = 'sqlite:///' + name + '.db'
+        opts['db_url'] = 'sqlite:///' + _db_file(name, _section_db(case, [t['id'] for t in case['doc']]))
     if file_paths:
         opts['file_path'] = list(file_paths.values())[0]
     return config_text(case, [('DS', opts)])
@@ -542,7 +588,7 @@ def materialise_layout(case, wd, layout, style=None, name='m', relative_ids=Fals
             names.append(fn)
         opts = {'mappings': ','.join(names)}
         if has_db:
-            opts['db_url'] = 'sqlite:///' + name + '.db'
+            opts['db_url'] = 'sqlite:///' + _db_file(name, _section_db(case, sum(files, [])))
         sections.append(('DS%d' % si, opts))
     return config_text(case, sections)
 
